@@ -500,6 +500,56 @@ pub fn run(prop: &'static str, tier: &str) -> i32 {
                 }
             }
         }
+        // the default parser further configured by the caller: an accepting validator of the caller's own on each
+        // OTHER registered claim (a leeway rule for nbf, an audience rule ...), and a JSON-object footer whose
+        // members are named like registered claims (kid / wpk next to exp / nbf / iat): the built-in rule for this
+        // property's claim still judges the PAYLOAD's claim
+        {
+            let key = key_for(*p);
+            let seed = if p.is_local() { domains::seeds(*p)[0].clone() } else { vec![] };
+            let other_time = if claim == "exp" { "nbf" } else { "exp" };
+            let (bad, good) = if claim == "exp" { ("1999-01-01T00:00:00Z", "2999-01-01T00:00:00Z") } else { ("2999-01-01T00:00:00Z", "1999-01-01T00:00:00Z") };
+            let footers: [Option<String>; 4] = [
+                None,
+                Some(format!("{{\"kid\":\"k4.lid.AAAA\",\"{}\":\"{}\"}}", claim, good)),
+                Some(format!("{{\"{}\":\"{}\",\"wpk\":\"k4.local-wrap.pie.AAAA\"}}", claim, bad)),
+                Some("{\"exp\":\"2999-01-01T00:00:00Z\",\"nbf\":\"1999-01-01T00:00:00Z\",\"iat\":\"1999-01-01T00:00:00Z\"}".to_string()),
+            ];
+            for (value, want_ok) in [(bad, false), (good, true), ("soon", false)] {
+                for fo in &footers {
+                    let payload = format!("{{\"{}\":\"{}\",\"aud\":\"api\"}}", claim, value);
+                    let Out::Ok(tok) = adapter::core_issue(*p, &key.sk, &seed, &payload, fo.as_deref(), None) else { continue };
+                    for validated in [vec![], vec![other_time], vec!["aud"], vec!["iat"], vec![other_time, "aud", "iat", "sub", "iss", "jti", "kid"]] {
+                        adapter::reset_verdicts();
+                        let mut ops: Vec<POp> = validated.iter().map(|k| POp::Validate(k.to_string(), 0)).collect();
+                        if let Some(f) = fo {
+                            ops.push(POp::Footer(f.clone()));
+                        }
+                        ops.push(POp::Parse(0, 0));
+                        adapter::set_clock(Some(time::OffsetDateTime::from_unix_timestamp_nanos(now).unwrap()));
+                        let ev = adapter::parse_history(*p, Layer::Prelude, true, &[key.pk.clone()], &[tok.clone()], &ops);
+                        adapter::freeze_default_clock();
+                        let _ = adapter::take_calls();
+                        acc.executions += 1;
+                        acc.impl_calls += 1;
+                        acc.choice_points += 1;
+                        let got = matches!(ev.last(), Some(PEvent::Parsed(o, _)) if o.is_ok());
+                        if got == want_ok {
+                            acc.bump("configured-default-parser:conforms");
+                            if want_ok {
+                                acc.controls_ok += 1;
+                            }
+                        } else {
+                            acc.violate(
+                                format!("{}|{}|configured-default-parser|{}", prop, p.name(), if want_ok { "rejected-valid" } else { "accepted" }),
+                                format!("PasetoParser::default() with accepting caller validators on {:?} and footer {:?}: payload {} -> {}, expected {}", validated, fo, payload, if got { "accepted" } else { "rejected" }, if want_ok { "Ok" } else { "a rejection by the built-in rule" }),
+                                json!({"time_case": TimeCase { proto: *p, now_ns: Some(now.to_string()), payload: payload.clone() }, "configured": validated}),
+                            );
+                        }
+                    }
+                }
+            }
+        }
         // other objects used earlier on the thread, at another clock reading (a builder created, built, refused
         // or failed; a plain or generic parser): the default rules judge against the clock as it reads when the
         // token is parsed, in both directions of the clock change
